@@ -93,6 +93,18 @@ def _power(kind, vals, nelem):
     return p if kind == "total" else S.div(p, nelem)
 
 
+def _power_code_shape(kind, re, im, pos):
+    """the same polynomial as _power, with the summands grouped per element (re_i^2 + im_i^2) the way the code under contract sums
+    |x_i|^2: an assumption stated on this very term is found by hash-consing when the code's zero-signal test `power < 1e-10` is
+    decided, instead of through a nonlinear equality of two differently ordered sums (which z3 decides in 0.1 s or in minutes,
+    depending on the history of the process)"""
+    fr, fi = re.reshape(-1), im.reshape(-1)
+    p = 0
+    for i in pos:
+        p = S.add(p, S.add(S.mul(fr[i], fr[i]), S.mul(fi[i], fi[i])))
+    return p if kind == "total" else S.div(p, len(pos))
+
+
 def _build(kind, T, shape):
     from kaira.constraints import AveragePowerConstraint, PerAntennaPowerConstraint, TotalPowerConstraint
 
@@ -212,14 +224,23 @@ def _radicand_is(rexpr, num, den):
 
 def _lemma(names, facts_fn, goal_fn, timeout_ms=20000):
     """cut rule: `facts => goal` is valid for ALL real values of the abstract variables `names` (own z3 instance, a handful of
-    variables).  Used only when every instantiated fact has been established in the full context; returns True / False."""
+    variables).  Used only when every instantiated fact has been established in the full context; returns True / False.
+    The query is translated into a FRESH z3 context: in the process-wide context the term ids (and with them nlsat's variable
+    order) depend on everything the worker process did before, which made this nonlinear query take anything between 0.1 s and
+    minutes.  A fresh context makes it the same query every time; `unknown` is retried with other seeds before giving up."""
     env = {n: S.Sym(z3.Real("cut!" + n)) for n in names}
-    so = z3.Solver()
-    so.set("timeout", timeout_ms)
-    for f in facts_fn(env):
-        so.add(S.zbool(f))
-    so.add(z3.Not(S.zbool(goal_fn(env))))
-    return so.check() == z3.unsat
+    parts = [S.zbool(f) for f in facts_fn(env)] + [z3.Not(S.zbool(goal_fn(env)))]
+    for attempt, seed in enumerate((0, 7, 23)):
+        c2 = z3.Context()
+        so = z3.Solver(ctx=c2)
+        so.set("timeout", timeout_ms * 3)
+        so.set("random_seed", seed)
+        for f in parts:
+            so.add(f.translate(c2))
+        r = so.check()
+        if r != z3.unknown:
+            return r == z3.unsat
+    return False
 
 
 def _rel_close(a, b, rtol):
@@ -377,7 +398,12 @@ def _ir_cfgs(tier):
             for t in (list(TARGETS) if tier == "thorough" else [list(TARGETS)[(2 * i + (kind == "avg")) % 4], list(TARGETS)[(2 * i + 1 + (kind == "avg")) % 4]]):
                 out.append(Cfg(kind, "real", shp, t, "idem"))
                 out.append(Cfg(kind, "real", shp, t, "rescale"))
-    out += [Cfg("total", "complex", "n2", "T1", "idem"), Cfg("total", "complex", "n2", "T2.5", "rescale"), Cfg("avg", "complex", "2x2", "T.01", "idem"), Cfg("avg", "complex", "2x2", "T1000", "rescale")]
+    out += [Cfg("total", "complex", "n2", "T1", "idem"), Cfg("avg", "complex", "2x2", "T.01", "idem")]
+    # complex inputs: the scale factor c is taken from a grid (concrete), not symbolic.  With symbolic c the code's zero-signal test
+    # on sum |c x_i|^2 is a nonlinear query that z3 answered in 0.1 s or not within 40 minutes depending on the history of the worker
+    # process (and did not react to interrupts); all c > 0 symbolically is kept for real inputs, where the query is stable.
+    for cval in ("0.01", "3.5", "10000"):
+        out += [Cfg("total", "complex", "n2", "T2.5", "rescale:" + cval), Cfg("avg", "complex", "2x2", "T1000", "rescale:" + cval)]
     return out
 
 
@@ -387,6 +413,7 @@ def idem_rescale(ctx, cfg):
     (>= 1e-5) of every item of x and of c x.  Proof shape: both executions are positive scalings by their own sqrt terms s1, s2
     (identities), whose radicands are target/(power + 1e-8) (identities); the per-sample bound then follows for all reals (cut lemma)."""
     kind, dom, shp, tname, var = cfg
+    var, _, cgrid = var.partition(":")
     cplx = dom == "complex"
     shape = SHAPES[shp]
     T = TARGETS[tname]
@@ -412,8 +439,11 @@ def idem_rescale(ctx, cfg):
     if var == "idem":
         x2, (r2, i2) = o1.value, (a_re, a_im)
     else:
-        cs = ctx.scalar("c", "real", sampler=lambda r: r.choice([0.01, 0.37, 3.5, 100.0, 1e4]))
-        ctx.assume(S.lt(0, cs))
+        if cgrid:
+            cs = Fr(cgrid)
+        else:
+            cs = ctx.scalar("c", "real", sampler=lambda r: r.choice([0.01, 0.37, 3.5, 100.0, 1e4]))
+            ctx.assume(S.lt(0, cs))
         r2 = np.asarray([S.mul(v, cs) for v in re.reshape(-1)], dtype=object).reshape(shape)
         i2 = np.asarray([S.mul(v, cs) for v in im.reshape(-1)], dtype=object).reshape(shape) if cplx else None
         with ctx.sym():
@@ -435,6 +465,8 @@ def idem_rescale(ctx, cfg):
             ctx.assume(S.le(S.mul(tgt, Fr(999, 1000)), p2))
         else:
             ctx.assume(S.le(NONNEG, p2))
+            if cplx:
+                ctx.assume(S.le(NONNEG, _power_code_shape(pk, r2, i2, pos)))  # same polynomial, the code's grouping
         p2s.append(p2)
     with abs_as_sqrt():
         o2 = ctx.call(c.forward, x2)
@@ -565,16 +597,25 @@ STUBS = [(2.0, 1.0), (-3.0, 0.5), (0.5, -2.0), (4.0, 3.0)]
 
 
 @obligation("C08.composite_is_left_fold", function=FC + ":CompositeConstraint.forward; " + FC + ":CompositeConstraint.__init__; " + FC + ":CompositeConstraint.add_constraint; " + FU + ":apply_constraint_chain; " + FU + ":combine_constraints",
-            configs=lambda tier: [Cfg(api, k) for api in ("composite", "chain", "combine", "add") for k in range(0, 5)] + [Cfg(api, k) for api in ("add_after_call", "nested_add_after_call") for k in range(2, 5)], crosscheck=2)
+            configs=lambda tier: [Cfg(api, k) for api in ("composite", "chain", "combine", "add") for k in range(0, 5)] + [Cfg(api, k) for api in ("add_after_call", "nested_add_after_call") for k in range(2, 5)] + [Cfg(api, "dup") for api in ("composite", "chain", "combine", "add")], crosscheck=2)
 def composite_fold(ctx, cfg):
     from kaira.constraints import CompositeConstraint
     from kaira.constraints.utils import apply_constraint_chain, combine_constraints
 
     api, k = cfg
     x = ctx.reals("x", (3,))
-    parts = [_stub(a, b) for a, b in STUBS[:k]]
+    if k == "dup":
+        # one constraint OBJECT at several positions of the chain (avg -> peak -> avg is the textbook use): positions, not objects, count
+        base = [_stub(a, b) for a, b in STUBS[:3]]
+        order = [0, 1, 0, 2, 1]
+        parts = [base[i] for i in order]
+        coeffs = [STUBS[i] for i in order]
+        k = len(parts)
+    else:
+        parts = [_stub(a, b) for a, b in STUBS[:k]]
+        coeffs = STUBS[:k]
     want = P(x).copy()
-    for a, b in STUBS[:k]:
+    for a, b in coeffs:
         want = np.asarray([S.add(S.mul(v, S.norm(a)), S.norm(b)) for v in want], dtype=object)
     if api == "composite":
         out = ctx.call(CompositeConstraint(parts).forward, x)
@@ -617,7 +658,7 @@ def composite_fold(ctx, cfg):
     if not out.ok:
         return
     ctx.ensure("equals_left_fold_of_parts", SP.all_eq(P(out.value), want), note=f"{k} parts")
-    ctx.ensure("each_part_applied_exactly_once", all(p.calls == 1 for p in parts))
+    ctx.ensure("each_part_applied_exactly_once", all(p.calls == sum(1 for q in parts if q is p) for p in parts), note="once per POSITION it occupies in the chain")
     ctx.ensure("input_unmodified", out.unmodified)
 
 
